@@ -44,8 +44,12 @@ Hypothesis St_same_memo : forall s s', St s -> Inv docs rid s' -> memo s' = memo
 
 Variable G : string -> json -> Prop.
 Variable follow : st -> list string -> option string -> string -> json -> eres (st * json).
+(* what is known of an expanded schema: [Q b t t'] for the schema t found at base b and its expansion t' (instantiated below
+   with "t' read at the root location is bisimilar to t, and every `$ref` left in t' is the rendering of a reference on a
+   cycle") *)
+Variable Q : string -> json -> json -> Prop.
 Hypothesis Hfollow : forall s rr b t s' t', G b t -> St s -> Coh cwd rr b -> follow s [] rr b t = Done (s', t') ->
-  St s' /\ bisimilar E docs cwd b t ctx_base t'.
+  St s' /\ Q b t t'.
 
 (* the graph of located elements (ExpandElem.v, ExpandChain.v) *)
 Variable GE : string -> string -> list (string * json) -> Prop.
@@ -84,10 +88,14 @@ Definition PorIn (kind b : string) (j : json) : Prop := match j with JObj m => G
 
 (* what an expanded parameter / response is: the end of its chain, its schema (if any) replaced by a bisimilar one read
    at the root location *)
+Definition por_out (b : string) (m mo : list (string * json)) : Prop :=
+  match assoc "schema" m with
+  | Some (JObj sm) => exists v', mo = set_member "schema" v' m /\ Q b (JObj sm) v'
+  | _ => mo = m
+  end.
 Definition por_rel (kind base : string) (j j' : json) : Prop :=
   match j with
-  | JObj m => exists b1 m1 mo, chases_k E docs cwd kind base m b1 m1 /\ j' = JObj mo /\
-                               forall n, rel_por E docs cwd n b1 (remove_key "$ref" m1) ctx_base mo
+  | JObj m => exists b1 m1 mo, chases_k E docs cwd kind base m b1 m1 /\ j' = JObj mo /\ por_out b1 (remove_key "$ref" m1) mo
   | _ => j' = j
   end.
 
@@ -102,11 +110,11 @@ Proof.
   cbn [por_rel].
   destruct (assoc "schema" (remove_key "$ref" m1)) as [[| | | | |sm]|] eqn:Esch;
     try (inversion H; subst; split; [exact Hs1|]; exists b1, m1, (remove_key "$ref" m1); split; [exact Hch|split; [reflexivity|]];
-         intros n; unfold rel_por; rewrite Esch; reflexivity).
+         unfold por_out; rewrite Esch; reflexivity).
   apply ebind_done in H. destruct H as [[s3 v'] [Hf H]]. cbn [fst snd] in H. inversion H; subst.
   destruct (Hfollow _ _ _ _ _ _ (GE_schema _ _ _ _ Hg1 Hend Esch) Hs1 Hc1 Hf) as [Hs3 Hb].
   split; [exact Hs3|]. exists b1, m1, (set_member "schema" v' (remove_key "$ref" m1)). split; [exact Hch|split; [reflexivity|]].
-  intros n. unfold rel_por. rewrite Esch. exists v'. split; [reflexivity|apply Hb].
+  unfold por_out. rewrite Esch. exists v'. split; [reflexivity|exact Hb].
 Qed.
 
 (* ---------- lists and maps of parameters / responses ---------- *)
@@ -340,11 +348,11 @@ Hypothesis noskip : o_skip OP = false.
 Variable DefKey : string -> Prop.
 Hypothesis Hwalk : forall s k v rr s' v', DefKey k -> G ctx_base v -> St s -> Coh cwd rr ctx_base ->
   walk E docs cwd OP ctx_base live follow v s ["#/definitions/" ++ k] rr ctx_base = Done (s', v') ->
-  St s' /\ bisimilar E docs cwd ctx_base v ctx_base v'.
+  St s' /\ Q ctx_base v v'.
 
 Definition spec_rel (m : list (string * json)) (out : json) : Prop :=
   exists m1 m2 m3 m4,
-    sec_rel "definitions" (fun _ v v' => bisimilar E docs cwd ctx_base v ctx_base v') m m1 /\
+    sec_rel "definitions" (fun _ v v' => Q ctx_base v v') m m1 /\
     sec_rel "parameters" (fun _ => por_rel "Parameter" ctx_base) m1 m2 /\
     sec_rel "responses" (fun _ => por_rel "Response" ctx_base) m2 m3 /\
     sec_rel "paths" (fun k v v' => if has_x_prefix_ci k then v' = v else pi_rel ctx_base v v') m3 m4 /\
@@ -376,7 +384,7 @@ Proof.
   destruct (Hsec _ _ _ _ H3) as [[s2 m2] H2]. rewrite H2 in H3. subst R2.
   match type of H2 with section_step "parameters" _ ?r1 = _ => set (R1 := r1) in H2 end.
   destruct (Hsec _ _ _ _ H2) as [[s1 m1] H1]. rewrite H1 in H2. subst R1.
-  destruct (section_sim fdef (fun _ v v' => bisimilar E docs cwd ctx_base v ctx_base v') (fun k v => DefKey k /\ G ctx_base v)
+  destruct (section_sim fdef (fun _ v v' => Q ctx_base v v') (fun k v => DefKey k /\ G ctx_base v)
               (fun s0 key v s0' v' Hp Hs0 Hw => Hwalk s0 key v (Some root_url) s0' v' (proj1 Hp) (proj2 Hp) Hs0 Hcoh Hw)
               "definitions" s m s1 m1 Hdefs Hs H1) as [Hs1 Hr1].
   assert (Ha1 : forall k', "definitions" <> k' -> assoc k' m1 = assoc k' m) by (intros k' Hne; exact (sec_rel_other _ _ _ _ _ Hr1 Hne)).
@@ -404,6 +412,71 @@ Proof.
 Qed.
 
 End SpecSim.
+
+(* ---------- the relation is monotone in what is known of the schemas ---------- *)
+Section Mono.
+Variable E : env.
+Variable docs : list (string * json).
+Variable cwd : string.
+Variables Q Q' : string -> json -> json -> Prop.
+Hypothesis HQ : forall b t t', Q b t t' -> Q' b t t'.
+
+Lemma Forall2_mono {A B} (R R' : A -> B -> Prop) : (forall a b, R a b -> R' a b) -> forall l l', Forall2 R l l' -> Forall2 R' l l'.
+Proof. intros H l l' HF. induction HF; constructor; auto. Qed.
+Lemma por_out_mono b m mo : por_out Q b m mo -> por_out Q' b m mo.
+Proof.
+  unfold por_out. destruct (assoc "schema" m) as [[| | | | |sm]|]; auto.
+  intros [v' [H1 H2]]. exists v'. split; [exact H1|apply HQ; exact H2].
+Qed.
+Lemma por_rel_mono kind base j j' : por_rel E docs cwd Q kind base j j' -> por_rel E docs cwd Q' kind base j j'.
+Proof.
+  unfold por_rel. destruct j; auto. intros [b1 [m1 [mo [H1 [H2 H3]]]]]. exists b1, m1, mo.
+  split; [exact H1|split; [exact H2|apply por_out_mono; exact H3]].
+Qed.
+Lemma entry_rel_mono kind base kv kv' : entry_rel E docs cwd Q kind base kv kv' -> entry_rel E docs cwd Q' kind base kv kv'.
+Proof.
+  unfold entry_rel. intros [H1 H2]. split; [exact H1|]. destruct (has_x_prefix_ci (fst kv)); [exact H2|apply por_rel_mono; exact H2].
+Qed.
+Lemma params_rel_mono base m ma : params_rel E docs cwd Q base m ma -> params_rel E docs cwd Q' base m ma.
+Proof.
+  unfold params_rel. destruct (assoc "parameters" m) as [[| | | |ps|]|]; auto. intros [ps' [H1 H2]]. exists ps'. split; [exact H1|].
+  eapply Forall2_mono; [|exact H2]. intros a b. apply por_rel_mono.
+Qed.
+Lemma resps_rel_mono base ma m' : resps_rel E docs cwd Q base ma m' -> resps_rel E docs cwd Q' base ma m'.
+Proof.
+  unfold resps_rel. destruct (assoc "responses" ma) as [[| | | | |rs]|]; auto. intros [rs' [H1 H2]]. exists rs'. split; [exact H1|].
+  eapply Forall2_mono; [|exact H2]. intros a b. apply entry_rel_mono.
+Qed.
+Lemma op_rel_mono base j j' : op_rel E docs cwd Q base j j' -> op_rel E docs cwd Q' base j j'.
+Proof.
+  unfold op_rel. destruct j; auto. intros [ma [m' [H1 [H2 H3]]]]. exists ma, m'.
+  split; [apply params_rel_mono; exact H1|split; [apply resps_rel_mono; exact H2|exact H3]].
+Qed.
+Lemma ops_rel_mono : forall names base m m', ops_rel E docs cwd Q names base m m' -> ops_rel E docs cwd Q' names base m m'.
+Proof.
+  induction names as [|op r IH]; cbn [ops_rel]; auto. intros base m m' [mi [H1 H2]]. exists mi. split; [|apply IH; exact H2].
+  destruct (assoc op m); [|exact H1]. destruct H1 as [o' [Ho Hm]]. exists o'. split; [apply op_rel_mono; exact Ho|exact Hm].
+Qed.
+Lemma pi_rel_mono base j j' : pi_rel E docs cwd Q base j j' -> pi_rel E docs cwd Q' base j j'.
+Proof.
+  unfold pi_rel. destruct j; auto. intros [b1 [m1 [ma [m' [H1 [H2 [H3 H4]]]]]]]. exists b1, m1, ma, m'.
+  split; [exact H1|split; [apply params_rel_mono; exact H2|split; [apply ops_rel_mono; exact H3|exact H4]]].
+Qed.
+Lemma sec_rel_mono k (R R' : string -> json -> json -> Prop) m m' :
+  (forall key v v', R key v v' -> R' key v v') -> sec_rel k R m m' -> sec_rel k R' m m'.
+Proof.
+  intros HR. unfold sec_rel. destruct (assoc k m) as [[| | | | |vm]|]; auto. intros [vm' [H1 H2]]. exists vm'. split; [exact H1|].
+  eapply Forall2_mono; [|exact H2]. intros a b [Ha Hb]. split; [exact Ha|apply HR; exact Hb].
+Qed.
+Theorem spec_rel_mono ctx_base m out : spec_rel E docs cwd ctx_base Q m out -> spec_rel E docs cwd ctx_base Q' m out.
+Proof.
+  intros [m1 [m2 [m3 [m4 [H1 [H2 [H3 [H4 H5]]]]]]]]. exists m1, m2, m3, m4.
+  split; [eapply sec_rel_mono; [|exact H1]; intros key v v'; apply HQ|].
+  split; [eapply sec_rel_mono; [|exact H2]; intros key v v'; apply por_rel_mono|].
+  split; [eapply sec_rel_mono; [|exact H3]; intros key v v'; apply por_rel_mono|].
+  split; [eapply sec_rel_mono; [|exact H4]; intros key v v' H; cbv beta in *; destruct (has_x_prefix_ci key); [exact H|apply pi_rel_mono; exact H]|exact H5].
+Qed.
+End Mono.
 
 (* ---------- the hypotheses decided by computation ---------- *)
 Lemma In_mem_str x l : In x l -> mem_str x l = true.
@@ -554,24 +627,30 @@ Proof.
     pose proof (H4 kv Hkv) as H. rewrite Hx in H. apply por_ok_In. exact H.
 Qed.
 
+(* an expanded schema: read at the root location it is bisimilar to the input schema read in its own document (C02), and
+   every `$ref` left in it is the rendering of a canonical reference that lies on a cycle of the schema graph - or was on the
+   stack the expansion started with (C03) *)
+Definition sound_schema (b : string) (t t' : json) : Prop :=
+  bisimilar E docs cwd b t ctx_base t' /\ okv E docs cwd OP ctx_base rid G bad0 t t'.
+
 (* ExpandSpec on a checked graph *)
 Theorem checked_spec_sim d fuel root_url m s s' out :
   check_root m = true -> St s -> Coh cwd (Some root_url) ctx_base ->
   expand_spec_with E docs cwd OP ctx_base live (exp E docs cwd OP ctx_base live d) fuel root_url (JObj m) s = Done (s', out) ->
-  St s' /\ spec_rel E docs cwd ctx_base m out.
+  St s' /\ spec_rel E docs cwd ctx_base sound_schema m out.
 Proof.
   intros Hroot Hs Hcoh H.
   assert (Hfollow : forall d0 s0 ps rr b t s0' t', G b t -> St s0 -> Coh cwd rr b ->
             PInv E docs cwd G bad0 ps (b, t) ->
-            exp E docs cwd OP ctx_base live d0 s0 ps rr b t = Done (s0', t') -> St s0' /\ bisimilar E docs cwd b t ctx_base t').
+            exp E docs cwd OP ctx_base live d0 s0 ps rr b t = Done (s0', t') -> St s0' /\ sound_schema b t t').
   { intros d0 s0 ps rr b t s0' t' Hg Hs0 Hc HP He.
-    destruct (checked_graph_cyc E docs cwd OP ctx_base rid nodes live bad0 Hck live_served strict noskip d0 s0 ps rr b t s0' t' Hg Hs0 Hc HP He) as [Hs0' _].
+    destruct (checked_graph_cyc E docs cwd OP ctx_base rid nodes live bad0 Hck live_served strict noskip d0 s0 ps rr b t s0' t' Hg Hs0 Hc HP He) as [Hs0' Hok].
     destruct (checked_graph_sim E docs cwd OP ctx_base rid nodes live Hck live_served strict d0 s0 ps rr b t s0' t' Hg (proj1 Hs0) Hc He) as [_ Hb].
-    split; [exact Hs0'|exact Hb]. }
+    split; [exact Hs0'|split; [exact Hb|exact Hok]]. }
   apply (expand_spec_sim E docs cwd OP ctx_base live rid live_served strict St (fun s0 Hs0 => proj1 Hs0) MD
            (fun s0 x Hs0 Hx => proj2 Hs0 x Hx)
            (fun s0 s0' Hs0 Hi Hm => conj Hi (fun x Hx => proj2 Hs0 x (eq_ind _ (fun l => In x l) Hx _ Hm)))
-           G (exp E docs cwd OP ctx_base live d)
+           G (exp E docs cwd OP ctx_base live d) sound_schema
            (fun s0 rr b t s0' t' Hg Hs0 Hc He => Hfollow d s0 [] rr b t s0' t' Hg Hs0 Hc (fun p Hp => match Hp with end) He)
            GE (GEN_holder E docs cwd enodes nodes Hcke) (GEN_target E docs cwd enodes nodes Hcke) (GEN_same E docs cwd enodes nodes Hcke)
            (GEN_schema E docs cwd enodes nodes Hcke) chk_fresh rank_of chk_rank fuel chk_pi noskip
